@@ -35,6 +35,7 @@ struct mbuf {
     int external;
     unsigned char *base;        /* what data() must return */
     void *ext;                  /* external buffer (harness-owned block) */
+    int extoff;                 /* the caller's buffer starts this many bytes into the block */
     int extowner;               /* this entry frees `ext` when it dies (other entries may describe the same caller memory) */
     int virt;                   /* caller claims far more elements than are backed by memory: addresses are computed, never dereferenced */
     int refs;
@@ -267,7 +268,7 @@ alloc_done:
         }
         case A_SET: {
             size_t sz = (size_t)(1 + op->a[3] % 16), nm = (size_t)(op->a[4] % 24);
-            void *ext = NULL; int b, shared_base = -1, virt = 0, q;
+            void *ext = NULL; int b, shared_base = -1, virt = 0, q, odd = 0;
             /* a caller may describe the same memory twice (e.g. a byte view and a word view of one buffer) ... */
             if ((op->a[2] % 3) == 1) {
                 for (q = 0; q < nbuf; q++) if (mb[q].live && mb[q].external && mb[q].ext && !mb[q].virt) shared_base = q;
@@ -286,11 +287,12 @@ alloc_done:
                 ext = simheap_alloc(64, TAG_EXT);
                 PROBE("set_virtual_huge_buffer");
             }
-            if (ext == NULL) ext = simheap_alloc(nm * sz ? nm * sz : 1, TAG_EXT);
+            /* a fresh real buffer may start at an odd address (a view that begins one byte into a caller's block) */
+            if (ext == NULL) { odd = (op->a[5] >> 4 & 3) == 1; ext = simheap_alloc((nm * sz ? nm * sz : 1) + (size_t)odd, TAG_EXT); if (odd) PROBE("set_external_at_odd_address"); }
             if (ma->buf >= 0 && ma->off != 0) { PROBE("set_on_sliced_object"); ctx = "dest-sliced"; }
             if (virt) ctx = "huge-external"; else if (shared_base >= 0) ctx = "same-base-twice";
             g_cur_ctx = ctx;
-            TRY(cstl_array_set(&arr[a], ext, nm, sz));
+            TRY(cstl_array_set(&arr[a], (unsigned char *)ext + odd, nm, sz));
             capture_allocs();
             if (g_aborted) VIOL(g_aborted == 2 ? "assert" : "abort", "set aborted");
             dead = m_drop(a);
@@ -300,7 +302,7 @@ alloc_done:
                 if (shared_base < 0) simheap_free(ext);
             } else {
                 b = new_buf();
-                mb[b].nm = nm; mb[b].sz = sz; mb[b].external = 1; mb[b].ext = ext; mb[b].base = ext; mb[b].refs = 1; mb[b].virt = virt;
+                mb[b].nm = nm; mb[b].sz = sz; mb[b].external = 1; mb[b].ext = ext; mb[b].base = (unsigned char *)ext + odd; mb[b].extoff = odd; mb[b].refs = 1; mb[b].virt = virt;
                 adopt_blocks(&mb[b]);
                 ma->buf = b; ma->off = 0; ma->len = nm;
                 PROBE("set_external");
@@ -399,7 +401,7 @@ alloc_done:
             if (g_aborted) VIOL(g_aborted == 2 ? "assert" : "abort", "release aborted");
             if (expect) {
                 PROBE("release_sole_user");
-                if ((op->a[2] & 1) && retbuf != mb[b].ext) VIOL("release_wrong_buffer", "release by the sole user did not hand back the supplied buffer");
+                if ((op->a[2] & 1) && retbuf != (void *)((unsigned char *)mb[b].ext + mb[b].extoff)) VIOL("release_wrong_buffer", "release by the sole user did not hand back the supplied buffer");
                 dead = m_drop(a);
                 check_death(dead, "release");
                 if (cstl_array_size(&arr[a]) != 0) VIOL("release_not_reset", "object still reports size %zu after a successful release", cstl_array_size(&arr[a]));
